@@ -31,6 +31,8 @@ CHECKS = {
          "Lean 4 proof (attribute-map model of the transformation methods) + translator (constructor / properties / keyword tables) + differential correspondence over operation sequences", "5/C15"),
  "C12": ("Lean theorems: the check-statistics codec round-trips (deser_ser_check: unary collapse, the `value` special case, `options`), checks keyed by name round-trip exactly when the names are distinct (deser_ser_checks; same_kind_checks_collapse is the witness of the recorded region); a script slot reads back as the value it was filled with whenever its filling mode is adequate for the kind of value (seen_lit_of_modeOk) and bare/hand-quoted text does not (witnesses). Per-run obligations by `decide` over tables regenerated from pandas_io.py / checks.py: every serialisable attribute of Column, Index and DataFrameSchema has a template slot filled from that attribute in an adequate mode; filled keywords = slots = constructor parameters; the fills read existing statistics keys; writer and reader key sets agree; a unary built-in's statistic is the first positional parameter. Differential: from_yaml(to_yaml(S)), from_json(to_json(S)), exec(to_script(S)) compared attribute by attribute and with ==, text idempotence, verdicts on probe frames; the model's codec vs serialize_schema",
          "Lean 4 proof (check codec, slot modes) + translator (script slot / key tables) + differential round trips", "5/C12"),
+ "C14": ("Lean theorems over the abstract data universe: the component inferred from an array (dtype, nullable iff a null occurs, >= min and <= max through float()) is satisfied by that array under C01's declarative semantics (infer_field_ok, every array whose values fit its dtype), lifted to frames (infer_frame_sat); the bounds are attained by elements of the data (bounds_tight); conversion to double is exact on the 53-bit range (roundF64_small) and for any monotone conversion the converted minimum/maximum bound every converted element (float_bounds_accept). Per-run obligation by `decide` over the table regenerated from _get_array_check_statistics (which check, which aggregate, which conversion per dtype kind; all-null guard; nullable = any null). Differential: inferred dtype / nullable / bounds per component vs the model (exact, incl. 2^53..2^63 neighbours), and the property on the implementation (infer, validate, values unchanged, tight bounds, yaml/json round trip with the same verdict) for frames inside and outside the universe",
+         "Lean 4 proof (inference model satisfies the declarative semantics) + translator (inferred-statistics table) + differential correspondence", "5/C14"),
 }
 NA = {}
 for i in range(1, 21):
